@@ -183,3 +183,56 @@ var allocTable = map[string]internalPanic{
 	"(*runtime.array).grow:make([]runtime.Value, n)": {1, "new array size computed by calculateArraySize from the number of integer keys present (at most twice the count); the growth is charged by (*Runtime).SetTable through the byte count (*Table).Set returns (who-may-call rule in C06)"},
 	"lib/stringlib.UnpackString:make([]byte, n)": {1, "'z' option: zi is advanced only while zi < len(u.pack) (the loop returns at the end of the subject), and u.j >= 0, so zi-u.j <= len(u.pack): bounded by the subject already held"},
 }
+
+// loopTable: loops reachable from cpu-limited code that are neither metered
+// nor bounded by the classifier's rules, with the reason their work is bounded;
+// keyed by function, with the number of such loops.
+var loopTable = map[string]internalPanic{
+	"(*lib/stringlib.unpacker).readVarInt":               {1, "fills at most 8 bytes of a fixed [8]byte (n < 8 in this branch)"},
+	"(*lib/stringlib/pattern.patternBuilder).getUnion":   {1, "every iteration consumes at least one byte of the pattern through pb.next(); bounded by len(pattern), which is held"},
+	"(*lib/stringlib/pattern.patternMatcher).match":      {1, "every iteration consumes budget (matchNext/getNext returned true), or advances pi (bounded by len(items)), or pops/decrements a trackback entry whose creation consumed budget (amortised: trackbacks <= budget consumed)"},
+	"(*lib/stringlib/pattern.patternMatcher).matchToEnd": {1, "every iteration ends in trackback(), which pops or decrements a trackback entry whose creation consumed budget"},
+	"(*runtime.Error).AddContext":                        {1, "walks up the continuation chain (c.Parent()): bounded by the chain, which is held memory"},
+	"(*runtime.Runtime).Traceback":                       {1, "one step per continuation in the chain (held memory); each step charges the bytes it appends"},
+	"(*runtime.Thread).RunContinuation":                  {1, "each iteration runs one continuation: Lua and Go continuations charge at least one unit, Termination returns a nil next, the message-handler continuation strictly shortens what is left (errContCount is bounded by maxErrorsInMessageHandler)"},
+	"(*runtime.Thread).cleanupCloseStack":                {1, "pops one pending to-be-closed value per iteration: bounded by the close stack (held memory); the __close call itself is metered"},
+	"(*runtime.array).next":                              {1, "scans the array part from i to a.len: bounded by the array (held memory)"},
+	"(*runtime.breader).readCode":                        {2, "sz was validated by checkLen against the bytes left in the input; every iteration reads at least one budgeted byte (readConst/readString consume budget)"},
+	"(*runtime.mixedTable).len":                          {1, "border search: one hash lookup per consecutive integer key present in the hash part (held memory)"},
+	"(lib/iolib.linebufWriter).Write":                    {1, "each iteration writes a non-empty prefix of p (i >= 1): bounded by len(p)"},
+	"(runtime.ComplianceFlags).Names":                    {1, "i doubles each iteration up to the constant complyflagsLimit: at most 16 iterations"},
+	"lib/mathlib.random":                                 {1, "rejection sampling with >= 50% acceptance per turn (the range covers more than half of int64)"},
+	"lib/stringlib.Format":                               {1, "pre-charged: RequireCPU(len(format)) precedes the loop and i only moves forward over format"},
+	"lib/stringlib.PackSize":                             {1, "one option per iteration of the format reader (hasNext/nextOption advance p.i): bounded by len(format)"},
+	"lib/stringlib.PackValues":                           {1, "one option per iteration of the format reader: bounded by len(format); each value written consumes budget"},
+	"lib/stringlib.UnpackString":                         {1, "one option per iteration of the format reader: bounded by len(format); each value read consumes budget"},
+	"lib/stringlib.bytef":                                {1, "i runs from max(1,i) to j = min(len(s), j): at most len(s) iterations, each pushing one value"},
+	"lib/stringlib.rep":                                  {1, "n-1 iterations, pre-charged by RequireBytes(n*len(s)+(n-1)*len(sep)) (an empty s and sep make the charge zero: value-level corner, not claimed)"},
+	"lib/stringlib.reverse":                              {1, "i <= len(s)/2, pre-charged by RequireBytes(len(s))"},
+	"runtime.findSlot":                                   {1, "small-table scan: j counts down from mask < smallHashTableSize (a constant)"},
+	"runtime.insertNewKeyValue":                          {1, "walks one collision chain of the hash part: bounded by the table (held memory; invariant I1: chains are finite)"},
+	"runtime.updateNextFree":                             {1, "nextFree only decreases, down to noNextFree: bounded by the number of slots"},
+}
+
+// meterRecursionTable: call-graph cycles without a metering function, keyed by
+// representative, with the reason.
+var meterRecursionTable = map[string]string{
+	"(*lib/iolib.File).Seek":                  "the self-call passes io.SeekStart, whose branch does not recurse (depth <= 2)",
+	"(*runtime.Termination).DebugInfo":        "walks down the continuation chain (held memory)",
+	"(*runtime.Termination).Parent":           "walks down the continuation chain (held memory)",
+	"(*runtime.messageHandlerCont).Next":      "walks down the continuation chain (held memory)",
+	"(*runtime.breader).read":                 "read -> readString -> read(8, &length): depth 2, and read consumes budget",
+	"(*runtime.breader).readCode":             "one level per nested prototype; every level consumes budgeted input bytes through read",
+}
+
+// cursorWriters: budgeted cursor fields and the functions allowed to assign
+// them without consuming budget at that point.
+var cursorWriters = map[string]map[string]internalPanic{
+	"lib/stringlib/pattern.patternMatcher.si": {
+		"(*lib/stringlib/pattern.patternMatcher).reset":     {1, "sets the start position of an attempt"},
+		"(*lib/stringlib/pattern.Pattern).Match":            {1, "initialises the matcher with the caller's start position"},
+		"(*lib/stringlib/pattern.Pattern).MatchFromStart":   {1, "initialises the matcher with the caller's start position"},
+		"(*lib/stringlib/pattern.patternMatcher).trackback": {2, "restores a position saved by addTrackback, or -1 for failure"},
+		"(*lib/stringlib/pattern.patternMatcher).match":     {1, "back-reference (%1..%9): advances by the length of an earlier capture after comparing it; at most len(s) per pattern item"},
+	},
+}
